@@ -701,6 +701,8 @@ class ProgramGen:
         self.counter = 0
         self.n_statements = 0
         self.reuse_names = True       # an assignment may overwrite an existing variable (with any type)
+        # optional veto of an accepted chunk: extra_check(files_of_the_chunk_as_a_program, env) -> bool
+        self.extra_check: T.Optional[T.Callable[[T.Dict[str, str], T.Dict[str, T.Any]], bool]] = None
 
     def fresh(self, prefix: str = 'v') -> str:
         self.counter += 1
@@ -948,6 +950,57 @@ class ProgramGen:
         picks = rng.sample(forms, 3)
         return f"{name} = [{', '.join(picks)}]\n" + self.observe(name), {}
 
+    LOOKALIKES = ['@0@', '@1@', '@2@', '@3@', '@9@', '@00@', '@01@', '@x@', '@@', '@', '0@', '@1', 'a@0@b', '@1@@0@', '@2@1@',
+                  '@0', '1@ @0@', '@-1@', '@ 0@']
+
+    def chunk_placeholders(self) -> T.Tuple[str, T.Dict[str, str]]:
+        """.format() and f-strings replace in one pass: placeholders repeated, out of order, zero padded, next to
+        stray '@'; ARGUMENT / VARIABLE values that themselves look like placeholders (of smaller, larger, own and
+        out-of-range index, or naming other variables) must come out untouched."""
+        rng = self.rng
+        name = self.fresh('ph')
+        if rng.random() < 0.7:
+            n = rng.randint(1, 4)
+            args = []
+            for i in range(n):
+                r = rng.random()
+                la = rng.choice(self.LOOKALIKES)
+                if r < 0.55:
+                    args.append(lit(rng, la))
+                elif r < 0.7:
+                    args.append(lit(rng, rng.choice(['pre ', '']) + la + rng.choice(['', ' post', la])))
+                elif r < 0.8:
+                    args.append(lit(rng, [la, rng.choice(self.LOOKALIKES)]))
+                elif r < 0.87:
+                    args.append(lit(rng, {la: rng.choice(self.LOOKALIKES)}))
+                elif r < 0.94:
+                    args.append(str(rng.choice([0, 1, 2, 10])))
+                else:
+                    args.append(rng.choice(['true', 'false']))
+            parts = []
+            for _ in range(rng.randint(1, 6)):
+                r = rng.random()
+                if r < 0.6:
+                    i = rng.randrange(n)
+                    parts.append(f'@{i}@' if rng.random() < 0.85 else f'@0{i}@')
+                elif r < 0.8:
+                    parts.append(rng.choice([' ', ' then ', '-', 'x', '', '|']))
+                else:
+                    parts.append(rng.choice(['@', '@@', '@x@', '@-1@', '@ 0@', '@0 @', '@a1@', '@1x@', '0@', '@0']))
+            tmpl = ''.join(parts)
+            stmt = f'{name} = {lit(rng, tmpl)}.format({", ".join(args)})\n'
+            return stmt + self.observe(name), {}
+        # f-strings: the values of the named variables contain @name@ of each other, of themselves, and @N@
+        a, b, c = self.fresh('fa'), self.fresh('fb'), self.fresh('fc')
+        vals = [f'@{b}@', f'@{a}@ @{c}@', f'<@{a}@>', '@0@', f'@{c}@', f'@{a}', f'{b}@', '@@', f'x@{b}@y@{a}@']
+        pre = f'{a} = {lit(rng, rng.choice(vals))}\n{b} = {lit(rng, rng.choice(vals))}\n{c} = {rng.choice([lit(rng, rng.choice(vals)), "[" + lit(rng, rng.choice(vals)) + "]", "7"])}\n'
+        body = ''.join(rng.choice([f'@{a}@', f'@{b}@', f'@{c}@', ' ', '-', '@', '@@', f'@{a}@{b}@', '@0@', f'@{a} @'])
+                       for _ in range(rng.randint(2, 6)))
+        tail = f".format({lit(rng, rng.choice(vals))})" if rng.random() < 0.4 else ''
+        quote = "'''" if rng.random() < 0.25 else "'"
+        stmt = f"{name} = f{quote}{body}{quote}{tail}\n"
+        return pre + stmt + self.observe(name), {}
+
     def chunk_message(self) -> T.Tuple[str, T.Dict[str, str]]:
         eg = self.eg()
         args = [eg.expr('any', 2).s for _ in range(self.rng.randint(1, 4))]
@@ -1037,7 +1090,7 @@ class ProgramGen:
             s += f"message('hidden', is_variable('{hidden[0]}'))\n"
         return s, {f'subprojects/{sp}/meson.build': text}
 
-    CHUNKS = [('assign', 30), ('plusassign', 8), ('alias', 6), ('torture', 7), ('nearmiss', 7), ('if', 8), ('foreach', 10), ('variables', 5),
+    CHUNKS = [('assign', 30), ('plusassign', 8), ('alias', 6), ('torture', 7), ('nearmiss', 7), ('placeholders', 7), ('if', 8), ('foreach', 10), ('variables', 5),
               ('message', 5), ('shortcircuit', 4), ('exprstmt', 2)]
     COMMENTS = ["# plain comment", "# it's \"quoted\" \\ @x@ '''", "", "\t# indented", "#", "# endif foreach x : y"]
 
@@ -1059,6 +1112,11 @@ class ProgramGen:
                 saved_counter = self.counter
                 t, f = getattr(self, 'chunk_' + kind)()
                 o = ref_exec(strip_markers(t), self.env, f)
+                if o.ok and self.extra_check is not None:
+                    cf = {'meson.build': "project('x')\n" + strip_markers(t)}
+                    cf.update(f)
+                    if not self.extra_check(cf, self.env):
+                        o.error = R.RefUnspecified('chunk vetoed by extra_check')
                 if o.ok:
                     self.env = dict(o.variables)
                     text += t
@@ -1202,6 +1260,8 @@ def matrix_cells(rng: random.Random, per_cell: int = 1) -> T.List[T.Tuple[str, s
              "1 in {'a': 1}", "'a' in 'cat'", "1 in 'cat'", "'a' not in 'cat'", "[1] == [true]", "1 == true",
              "{'a': 1} == {'a': true}", "[1, [2]] == [1, [2]]", "{'a': 1, 'b': 2} == {'b': 2, 'a': 1}",
              "'@0@'.format('@1@', 'x')", "'@0@@1@'.format('a', 'b')", "'@0@'.format()", "'@1@'.format('a')", "'@a@'.format('a')",
+             "'@1@0@'.format('a', 'b')", "'@0@1@'.format('a', 'b')", "'@0@ then @1@'.format('@1@', 'x')", "'@1@ @0@'.format('@1@', '@0@')",
+             "'@01@'.format('a', 'b')", "'@2@'.format('@0@', '@1@', '@2@')",
              "'a' 'b'", "1.5", "010", "0x", "1_000", "'a'.b", "1 +", "* 2", "(1", "[1, 2", "{'a' 1}", "{'a': }", "f'@x'",
              "'/a' / 'b'", "'a' / '/b'", "'a' / 'b' / 'c'", "'a/' / 'b'", "'a' + 1", "1 + 'a'", "[1] + 2", "[1] + [2]",
              "{'a': 1} + {'a': 2, 'b': 3}", "true.to_string('', 'x')", "false.to_string('x', '')"]
